@@ -32,6 +32,7 @@ Definition getD {A} (d : A) (x : list A) (k : Z) : A := nth (Z.to_nat k) x d.
 Definition getZ (x : list Z) (k : Z) : Z := getD 0 x k.
 Definition firstnZ {A} (k : Z) (l : list A) : list A := firstn (Z.to_nat k) l.
 Definition lenZ {A} (l : list A) : Z := Z.of_nat (length l).
+Definition memZ (k : Z) (l : list Z) : bool := existsb (Z.eqb k) l.
 Definition swapZ {A} (d : A) (l : list A) (a b : Z) : list A := updZ (updZ l a (getD d l b)) b (getD d l a).
 Fixpoint rangeN (start : Z) (n : nat) : list Z := match n with O => [] | S k => start :: rangeN (start + 1) k end.
 Definition rangeZ (a b : Z) : list Z := rangeN a (Z.to_nat (b - a)).
@@ -146,6 +147,12 @@ Section V.
     match rows with [] => [] | r :: rs => fold_left (vmap2 add) rs r end.
   Definition vmean_rows (rows : mat) : vec := vmap (fun s => div s (ofZ (lenZ rows))) (vsum_rows rows).
   Definition vnorm (x : vec) : T := fsqrt (sumsq x).            (* np.linalg.norm of a vector *)
+  (* np.where(test(v))[0]: ascending indices of the entries that pass; v[idxs] = c; i in idxs *)
+  Fixpoint where_from (f : T -> bool) (x : vec) (i : Z) : list Z :=
+    match x with [] => [] | a :: x' => if f a then i :: where_from f x' (i + 1) else where_from f x' (i + 1) end.
+  Definition where_idx (f : T -> bool) (x : vec) : list Z := where_from f x 0.
+  Definition vall2 (f : T -> T -> bool) (x y : vec) : bool := forallb (fun p => f (fst p) (snd p)) (combine x y).   (* np.all(x <= y) *)
+  Definition set_many (x : vec) (idxs : list Z) (c : T) : vec := fold_left (fun acc k => updZ acc k c) idxs x.
   Definition vmaxabs (x : vec) : T :=                            (* np.max(np.abs(x)), NaN-propagating *)
     match x with [] => dflt | a :: x' => fold_left (fun m b => npmax m (fabs b)) x' (fabs a) end.
 
